@@ -463,7 +463,7 @@ def judge_bad_setup(name, info):
 
 def _gen(seed, tier, opts):
     rng, nprng = core.rngs(seed)
-    n_ten = rng.randint(2, 4)
+    n_ten = rng.randint(2, 4) if tier != "thorough" else rng.randint(2, 6)
     share_level = rng.choice([None, None, "mesh", "surface"])
     tenants = []
     for t in range(n_ten):
